@@ -36,6 +36,9 @@ Next == /\ Len(hist) < Depth
         /\ \/ \E call \in SimCalls(ps) : \E o \in Outcomes(env, ps, call) :
                  /\ ps' = o.ps2 /\ env' = env
                  /\ hist' = Append(hist, call)
+           \/ \E lf \in LogFailSet \ {env.logfail} :  \* the consensus component starts / stops failing operations
+                 /\ env' = [env EXCEPT !.logfail = lf] /\ ps' = ps
+                 /\ hist' = Append(hist, [op |-> "logfail", logfail |-> lf])
            \/ \E fl \in FailSet \ {env.fail} :       \* BlockGet starts / stops failing for some blocks
                  /\ env' = [env EXCEPT !.fail = fl] /\ ps' = ps
                  /\ hist' = Append(hist, [op |-> "blockfail", fail |-> fl])
